@@ -432,6 +432,7 @@ func main() {
 	files = append(files, genNetstate(*repo))
 	files = append(files, genMetrics(*repo))
 	files = append(files, genMain(*repo))
+	files = append(files, genVerify(*repo))
 
 	// Go → Lean translation of the whitelisted functions (translate.go).  Written even when a
 	// fact above could not be extracted: a stale Trans.lean must not survive a source change.
@@ -1304,6 +1305,8 @@ func genPlugin(repo string) *leanFile {
 		}
 		l.lines = append(l.lines, "/-- betterRDNSS: predicate order as codes (0 IsPrivate, 1 IsGlobalUnicast, 2 IsLinkLocalUnicast, 99 other) -/\ndef rdnssRankingCodes : List Nat := ["+strings.Join(codes, ", ")+"]")
 	}
+	// betterRDNSS / isStable / isEUI64 / (*RDNSS).current: printed decision structure (better.go)
+	genBetterRDNSS(l, fl)
 	// C17: sources that are nil until Prepare — is the nil func guarded before it is called?
 	for _, g := range []struct{ typ, field, name string }{
 		{"Prefix", "Addrs", "prefixGuardsNilAddrs"},
